@@ -155,7 +155,7 @@ CHECKS = {
           "by two per sample; switching on is refused with the state untouched when a link has 64-sample blocks; totals unchanged; link tables are never modified by any op; for ANY page table a successful half-rate sample seek lands less than "
           "one output sample (two positions) below the target, and its loops terminate; SeekH_lemmas.v redoes the C07 development with the half-rate flag set: linear "
           "reading of intact packets delivers half the block step per packet and advances the position by two per sample (SyncInvH), and ov_pcm_seek on an intact run "
-          "reports a position at or below the target, less than two below it, and truthful (executable hypotheses seek_hyps_h, evaluated per run for every half-rate "
+          "reports a position at or below the target, less than two below it, and truthful; page seek and byte seek land the handle and the first fetch after landing is in sync at the reported position (executable hypotheses seek_hyps_h, evaluated per run for every half-rate "
           "sample seek). "
           "Per run: ov_halfrate toggled at random points of seek/read histories, every op compared with VFile.v and every read bit for bit with a packet-level decode "
           "that had the setting from the start; final linear read counts ceil(N/2) per link.",
